@@ -14,12 +14,12 @@ NO_PARSER = ('needs the native EdgeQL parser (Rust/pyo3 + `parsing` tables) and 
 
 NOT_APPLICABLE = {
     'C01': 'print/re-parse round trip: ' + NO_PARSER + '; the token-level half (literals, identifiers, parameters) is decided under C18',
-    'C02': 'computed migrations: ' + NO_PARSER,
+    #'C02-old': 'computed migrations: ' + NO_PARSER,
     'C03': 'DESCRIBE output rebuilds the schema: ' + NO_PARSER,
     'C05': 'backend tables track the schema: edb/pgsql/delta.py adapts deltas of std-based object types; ' + NO_PARSER,
     'C07': 'access policies on every read path: needs EdgeQL->IR->SQL compilation; ' + NO_PARSER,
-    'C10': 'step-by-step vs direct migration: ' + NO_PARSER,
-    'C11': 'SDL order independence: sdl_to_ddl needs parsed SDL and std name resolution (' + NO_PARSER + '); its ordering kernel is decided under C20',
+    #'C10-old': 'step-by-step vs direct migration: ' + NO_PARSER,
+    #'C11-old': 'SDL order independence: sdl_to_ddl needs parsed SDL and std name resolution (' + NO_PARSER + '); its ordering kernel is decided under C20',
     'C12': 'inferred types vs evaluated values: needs compilation and the toy evaluator, both need the parser; ' + NO_PARSER,
     'C13': 'generated SQL scoping/determinism: needs compiled queries; ' + NO_PARSER,
 }
@@ -119,6 +119,40 @@ check('C20', 'other',
       'honoured when hard+soft is acyclic, unresolved references raise iff not allowed, deterministic. Finite-domain input: the '
       'per-path engine performs an exhaustive case split; N >= 4 is outside (the merged bit-vector encoding of DESIGN.md was not built).',
       'Trusted: the 8-line reachability oracle. Iteration order of keys: ascending only.', 'DESIGN.md section 4, C20')
+
+check('C04', 'model_checking',
+      'bounded model checking of DDL histories on the real schema delta machinery: commands are symbolic choices (CrossHair + z3), executed natively once chosen',
+      'Every history inside the bound - 2 (quick) / 3 (thorough) commands chosen from a menu of ~70 DDL commands over 3 object types '
+      '(create / drop / rename / re-base / abstract, properties, links, annotations) on top of 4 pre-built schemas - runs through the '
+      'real delta/ddl/inheriting/referencing/schema code as hand-built DDL nodes; after every command, accepted or rejected: all '
+      'references resolve, name / id / referrer look-ups agree with the objects, dropped objects are unreachable, and every earlier '
+      'schema value still observes as before.',
+      'Trusted: integrity oracle in vlib/schema_kit.py; a minimal stand-in for std (the real std library needs the parser). Commands '
+      'are DDL AST nodes, not text. Finite-domain: the solver prunes, CrossHair enumerates the feasible choice sequences.',
+      'DESIGN.md section 4, C04')
+
+check('C02', 'model_checking',
+      'bounded model checking of ddl.delta_schemas on schema pairs chosen symbolically (CrossHair + z3), migrations applied directly and replayed as DDL statements',
+      'For every pair of schemas inside the bound (4 recipes x at most 1-2 extra DDL commands per side) the migration computed by the '
+      'real diff engine, when accepted, yields a schema structurally equal to the target with no residual delta - both applied '
+      'directly and rendered as DDL statements and replayed. Refused migrations are outside the statement (their share is reported).',
+      'Trusted: structural-equality oracle; std stand-in; DDL replay starts from statement nodes (no text parser). Known finding F17.',
+      'DESIGN.md section 4, C02/C10')
+
+check('C10', 'model_checking',
+      'bounded model checking of migration chains (empty -> S1 -> S2 vs empty -> S2, then -> empty) with symbolically chosen schemas (CrossHair + z3)',
+      'For every chain inside the bound the step-by-step result equals the direct one and the target, and the final migration to the '
+      'empty schema removes everything, whenever every step is accepted.',
+      'Trusted: as C02.', 'DESIGN.md section 4, C02/C10')
+
+check('C11', 'model_checking',
+      'bounded model checking of ddl.apply_sdl over symbolically chosen SDL documents and declaration orders (CrossHair + z3), hand-built SDL nodes',
+      'For every 3-type SDL document inside the bound (extending / link / annotation structure chosen symbolically, cyclic cases '
+      'included) and every order of its declarations (all permutations of top-level declarations, body member order, module-block '
+      'split) the real apply_sdl gives the same outcome as for the reference order: equal, referentially intact schemas, or rejection '
+      'in both; a cycle rejection only for really cyclic extending relations.',
+      'Trusted: structural-equality oracle; std stand-in; SDL given as qlast.Schema nodes (no text parser). Declarations with '
+      'expressions are outside.', 'DESIGN.md section 4, C11')
 
 UNDER_CONSTRUCTION = {}
 
